@@ -227,6 +227,32 @@ def check_history(res, scn, *, resumed=False, props=("c18", "c08")):
                     where, got=le, want=want,
                 )
             )
+        # ... and by definition: the sum, over the stored populations, of the log mean incremental weight of population i-1
+        # for the move to the temperature population i carries.  This does not look at the recorded series at all, so a
+        # term that was recorded (and summed) twice, or not at all, shows.  Needs the complete sample history and no final
+        # enlargement (which replaces the last stored population's size, not its temperature).
+        nf = scn["sample_kwargs"].get("n_final_samples")
+        if le is not None and len(pops) >= 2 and (nf is None or nf == scn["n_samples"]) and pops[0].beta in (0, 0.0) \
+                and all(p.beta is not None for p in pops):
+            terms, ok = [], True
+            for i in range(1, len(pops)):
+                x, ll, lp, lq = pop_arrays(pops[i - 1])
+                b0, b1 = float(pops[i - 1].beta), float(pops[i].beta)
+                if not (b1 > b0) or f32_unresolvable(bits, ll, lp, lq):
+                    ok = False
+                    break
+                terms.append(M.log_ratio(M.incr_logw(ll, lp, lq, b0, b1)))
+            if ok and float(pops[-1].beta) == beta[-1]:
+                want_def = float(np.sum(terms))
+                if not close(le, want_def, rtol=t["rtol"] * 4, atol=t["atol"] * 4 * len(terms)):
+                    out.append(
+                        violation(
+                            "c08.evidence_definition",
+                            f"returned log_evidence={le!r} but the log mean incremental weights of the {len(terms)} stored "
+                            f"population moves sum to {want_def!r}" + (" (resumed run)" if resumed else ""),
+                            where, got=le, want=want_def, moves=len(terms), recorded_terms=len(ratios),
+                        )
+                    )
         wante = math.sqrt(float(np.sum(np.asarray(vars_))))
         if lee is None or not close(lee, wante, **dict(rtol=max(t["rtol"], 1e-6) * 5, atol=1e-9 if bits == 64 else 1e-5)):
             out.append(
